@@ -8,17 +8,20 @@
 
    Conventions.
    * a circuit is its instruction list (Common/Circ.v); instruction_ids : list (list nat),
-     map_ids : option (list Z) (None = argument omitted; ids are Python ints, possibly negative).
-     Negative instruction indices and `None` entries inside map_ids are outside the model
-     (the harness never sends them).
+     map_ids : option (list (option Z)) (None = argument omitted; entries are Python ints, possibly
+     negative, or None).  Negative instruction indices are outside the model and the property's
+     quantifier (the harness never sends them).
    * benv : handle -> basis; two placeholders have equal handles iff QPDBasis.__eq__ holds.
    * Qiskit invariant used silently: an instruction whose operation is a TwoQubitQPDGate has
      two qubits, a SingleQubitQPDGate one qubit (QuantumCircuit.append enforces the arity), so
      `nth 0 / nth 1` on the qubit list never meets its default.
    * the model has no notion of the cached `Instruction._definition`: `definition` is always
      computed from the CURRENT basis_id, which is what the property demands.
-   * F5 (repaired behaviour): a one-qubit placeholder whose basis_id is None is Refused in the
-     second loop of _decompose_qpd_instructions (the unrepaired /repo evaluates `None.data`). *)
+   * unset basis_id (F5, c8b859e): _decompose_qpd_instructions refuses BEFORE any rewriting when some
+     placeholder has basis_id None.
+   * inconsistent groupings (property: "are refused"): the model follows the REPAIRED validation, which
+     also refuses a two-element group containing a TwoQubitQPDGate and an instruction index that is
+     mentioned twice (inside one group or across groups). *)
 From CKT Require Import Common.Base Common.Circ.
 
 (* ---------- small observers ---------- *)
@@ -28,6 +31,9 @@ Definition bid_of (i : instr) : option nat :=
   match iop i with Qpd2 _ m _ | Qpd1 _ _ m _ => m | _ => None end.
 Definition is_qpd2 (i : instr) : bool := match iop i with Qpd2 _ _ _ => true | _ => false end.
 Definition is_marker (i : instr) : bool := match iop i with QpdMeasure => true | _ => false end.
+(* a placeholder without basis_id *)
+Definition has_bid (i : instr) : bool :=
+  match iop i with Qpd2 _ None _ | Qpd1 _ _ None _ => false | _ => true end.
 
 (* [i for i, inst in enumerate(data) if f inst], indices counted from k *)
 Fixpoint positions_from {A} (f : A -> bool) (k : nat) (l : list A) : list nat :=
@@ -38,8 +44,9 @@ Fixpoint positions_from {A} (f : A -> bool) (k : nat) (l : list A) : list nat :=
 Definition positions {A} (f : A -> bool) (l : list A) : list nat := positions_from f 0 l.
 
 (* ---------- _validate_qpd_instructions ---------- *)
-(* for gate_id in decomp_ids: isinstance check, then basis comparison with the first gate's *)
-Fixpoint validate_members (c : circ) (b0 : nat) (g : list nat) : res unit :=
+(* for gate_id in decomp_ids: isinstance check, basis comparison with the first gate's, and (repair)
+   a TwoQubitQPDGate must be a decomposition of its own; `pair` = (len(decomp_ids) == 2) *)
+Fixpoint validate_members (c : circ) (b0 : nat) (pair : bool) (g : list nat) : res unit :=
   match g with
   | [] => Ok tt
   | p :: r =>
@@ -48,7 +55,10 @@ Fixpoint validate_members (c : circ) (b0 : nat) (g : list nat) : res unit :=
       | Some ins =>
           match basis_of ins with
           | None => Refused                               (* non-QPDGate *)
-          | Some b => if Nat.eqb b0 b then validate_members c b0 r else Refused  (* differing bases *)
+          | Some b => if Nat.eqb b0 b
+                      then (if pair && is_qpd2 ins then Refused          (* 2q gate inside a two-element group *)
+                            else validate_members c b0 pair r)
+                      else Refused                        (* differing bases *)
           end
       end
   end.
@@ -63,7 +73,7 @@ Definition validate_group (c : circ) (g : list nat) : res unit :=
       | Some ins0 =>
           match basis_of ins0 with
           | None => Refused
-          | Some b0 => validate_members c b0 g
+          | Some b0 => validate_members c b0 (Nat.eqb (length g) 2) g
           end
       end
   end.
@@ -74,9 +84,14 @@ Fixpoint validate_groups (c : circ) (ids : list (list nat)) : res unit :=
   | g :: r => res_bind (validate_group c g) (fun _ => validate_groups c r)
   end.
 
+(* len(set(flat)) != len(flat) *)
+Fixpoint nodupb (l : list nat) : bool :=
+  match l with [] => true | x :: r => negb (existsb (Nat.eqb x) r) && nodupb r end.
+
 Definition validate (c : circ) (ids : list (list nat)) : res unit :=
   res_bind (validate_groups c ids) (fun _ =>
-    if Nat.eqb (length (filter is_qpd c)) (list_sum (map (@length nat) ids)) then Ok tt else Refused).
+    if negb (nodupb (concat ids)) then Refused                                     (* (repair) an index mentioned twice *)
+    else if Nat.eqb (length (filter is_qpd c)) (list_sum (map (@length nat) ids)) then Ok tt else Refused).
 
 (* ---------- map_ids: length check + assignment loop (basis_id setter) ---------- *)
 Definition set_bid_op (m : nat) (o : op) : op :=
@@ -122,11 +137,28 @@ Fixpoint assign_loop (benv : benv) (c : circ) (gm : list (list nat * Z)) : res c
   | (g, m) :: r => res_bind (assign_group benv c g m) (fun c' => assign_loop benv c' r)
   end.
 
-Definition set_basis_ids (benv : benv) (c : circ) (ids : list (list nat)) (maps : option (list Z)) : res circ :=
+(* [m for m in map_ids] when no entry is None *)
+Fixpoint all_some {A} (l : list (option A)) : option (list A) :=
+  match l with
+  | [] => Some []
+  | None :: _ => None
+  | Some x :: r => option_map (cons x) (all_some r)
+  end.
+
+(* length check; pre-validation loop (417f876, 32107ac): `map_ids[i] is None or map_ids[i] not in range(num_maps)`
+   -> ValueError for every member of every group, before anything is assigned; then the assignment loop.
+   After validate every group is non-empty and every index is a placeholder, so the pre-validation refuses
+   iff some entry is None or out of range for a member of its group, and the assignment loop then cannot
+   fail: the two loops are folded into `all_some` + `assign_loop` (same returned value; the argument's
+   state after a refusal is observed by the harness, not modelled). *)
+Definition set_basis_ids (benv : benv) (c : circ) (ids : list (list nat)) (maps : option (list (option Z))) : res circ :=
   match maps with
   | None => Ok c
-  | Some ms => if negb (Nat.eqb (length ids) (length ms)) then Refused
-               else assign_loop benv c (combine ids ms)
+  | Some mos => if negb (Nat.eqb (length ids) (length mos)) then Refused
+                else match all_some mos with
+                     | None => Refused
+                     | Some ms => assign_loop benv c (combine ids ms)
+                     end
   end.
 
 (* ---------- _decompose_qpd_instructions, first loop: 2q -> two 1q halves ---------- *)
@@ -203,7 +235,7 @@ Fixpoint loop_1q (benv : benv) (L : list nat) (off : Z) (cur : circ) : res circ 
       | Some ins =>
           match iop ins with
           | Qpd2 _ _ _ => Crashed                       (* assert len(qubits) == 1 *)
-          | Qpd1 b h None _ => Refused                  (* F5 repair: basis_id unset *)
+          | Qpd1 b h None _ => Crashed                  (* definition is None (`None.data`); unreachable after the up-front check *)
           | Qpd1 b h (Some m) _ =>
               match definition_1q benv b h m with
               | None => Crashed                         (* maps[basis_id] IndexError (setter invariant broken) *)
@@ -240,12 +272,17 @@ Definition decompose_measurements (nc : nat) (c : circ) : circ * nat :=
   (loop_meas L 0 nc c, Nat.max 1 (length L)).          (* ClassicalRegister(max(1, len(ids))) *)
 
 (* ---------- decompose_qpd_instructions ---------- *)
+(* _decompose_qpd_instructions: up-front unset-basis_id check, the two loops, the marker pass *)
+Definition finish (benv : benv) (c1 : circ) (nc : nat) (ids : list (list nat)) : res (circ * nat) :=
+  if negb (forallb has_bid c1) then Refused else          (* "Cannot decompose a QPD gate whose basis_id is unset" *)
+  res_bind (expand_2q c1 ids) (fun c2 =>
+  res_bind (expand_1q benv c2) (fun c3 =>
+  Ok (decompose_measurements nc c3))).
+
 (* result: new instruction list and the size of the new final register "qpd_measurements";
    nc = number of classical bits of the input circuit *)
-Definition decompose (benv : benv) (c : circ) (nc : nat) (ids : list (list nat)) (maps : option (list Z))
+Definition decompose (benv : benv) (c : circ) (nc : nat) (ids : list (list nat)) (maps : option (list (option Z)))
   : res (circ * nat) :=
   res_bind (validate c ids) (fun _ =>
   res_bind (set_basis_ids benv c ids maps) (fun c1 =>
-  res_bind (expand_2q c1 ids) (fun c2 =>
-  res_bind (expand_1q benv c2) (fun c3 =>
-  Ok (decompose_measurements nc c3))))).
+  finish benv c1 nc ids)).
